@@ -7,6 +7,9 @@
 // Scenario "repair-converge": 2-4 real property/db instances play the replicas of one shard; each
 // receives a subset of a history; the driver plays gossip and calls the real per-key repair code.
 // Oracles: monotonicity per exchange, convergence after a fair closing pass.
+//
+// Scenario "gossip-exchange" (gossip_test.go): 2-3 real property/db instances with repair enabled run the
+// REAL Merkle-tree gossip exchange (client Rev against the RepairService handler) over an in-memory stream.
 package c18
 
 import (
@@ -52,6 +55,7 @@ func TestSim(t *testing.T) {
 		{Name: "lww-map", Weight: 13, Run: runLWW},
 		{Name: "repair-converge", Weight: 10, Run: runRepair},
 		{Name: "long-history", Weight: 1, Run: runLongHistory},
+		{Name: "gossip-exchange", Weight: 1, Run: runGossip},
 	})
 }
 
